@@ -112,6 +112,7 @@ let run (toks : string list) (obs : string) : string =
     model_dec (bytes_of_hex h) ^ tail
   | "deep" :: d :: _ -> "exit=0 Ok depth=" ^ d          (* Proofs/Amf0Total.v depth_unbounded: the model decodes every depth *)
   | "deepx" :: _ -> obs                                 (* extreme depths: the stack is not modelled; judged by the oracle only *)
+  | "flat" :: _ -> obs                                  (* long flat runs: stack use is not modelled; judged by the oracle only *)
   | "dect" :: k :: h :: _ ->
     let k = int_of_string k in
     model_dec (List.filteri (fun i _ -> i < k) (bytes_of_hex h))
@@ -153,12 +154,17 @@ let oracle (toks : string list) (obs : string) : (string * bool) list =
        let ordered, _ = (try parse_values (toks_of ordered_txt) with _ -> [], []) in
        let spec = Amf0Spec.ref_encode_all ordered in
        ["C04.roundtrip", back = Printf.sprintf "Ok %d %s" nbytes canon;
+        "C12.decoder_reads_encoder_output", back = Printf.sprintf "Ok %d %s" nbytes canon;
         "C12.encode_is_spec", (match spec with Some b -> hex_of_bytes b = hexb | None -> false);
         "C19.amf0_refused", not (List.exists has_unencodable vs)]
      | _ -> ["C04.observation_shape", false])
   | "decx" :: h :: expected ->
     (* expected observation computed by the independent reference encoder of the generator *)
     ["C12.decode_reference", obs = String.concat " " expected]
+  | "flat" :: _ ->
+    (* a flat run needs no stack beyond a constant: the child must end normally (value or error), not abort *)
+    let ok = String.length obs >= 6 && String.sub obs 0 6 = "exit=0" in
+    ["C14.flat_input_constant_stack", ok; "C03.flat_input_constant_stack", ok]
   | ("deep" | "deepx") :: d :: _ ->
     ["C14.deep_nesting_no_abort", obs = "exit=0 Ok depth=" ^ d; "C03.deep_nesting_no_abort", (List.hd toks = "deepx") || obs = "exit=0 Ok depth=" ^ d]
   | "decm" :: [h] ->
